@@ -4,7 +4,7 @@
    the reads return. [copy_inv] (keys sorted, versions at most max_version) is an invariant
    (C04_copy_inv_preserved). *)
 From Coq Require Import Lia ZArith.
-From ChitchatModel Require Import Base SMap Ids Bytes NodeState SMap_lemmas NodeState_lemmas Inv KV_lemmas.
+From ChitchatModel Require Import Base SMap Ids Bytes NodeState SMap_lemmas NodeState_lemmas Inv KV_lemmas GuardsGen GuardTie.
 
 (* reads: get hides plain tombstones only; a TTL-marked key stays visible *)
 Theorem C06_get_visibility : forall c k,
@@ -117,3 +117,18 @@ Example C06_nonvacuous :
   ksorted (c_kvs c) /\ iter_prefix c [x61] = [([x61], mkVV [x31] 1 SSet)] /\
   c_gc (gc_keys_marked_for_deletion 15 10 c) = 2%N /\ get c [x62] = Some [x32].
 Proof. vm_compute. repeat split; auto. Qed.
+
+(* ---- the tie of the decision guards to the sources (GuardTie.v; see C14.v for the scheme) ---- *)
+Theorem C06_gc_guards_are_the_source_guards :
+  (forall now grace c,
+     (forall v, gc_collectable now grace v =
+        match time_of_start_scheduled_for_deletion (v_st v) with None => false | Some t => negb (g_gc_keep now t grace) end) /\
+     gc_keys_marked_for_deletion now grace c =
+       let removed := filter (fun kv => gc_collectable now grace (snd kv)) (c_kvs c) in
+       mkCopy (c_hb c) (fold_left (fun g kv => g_gc_watermark (v_ver (snd kv)) g) removed (c_gc c)) (c_max c)
+              (filter (fun kv => negb (gc_collectable now grace (snd kv))) (c_kvs c))) /\
+  ((forall now t grace, rs_gc_keep now t grace = g_gc_keep now t grace) \/
+   (forall now t grace, rs_gc_keep now t grace = negb (g_gc_keep now t grace))) /\
+  (forall ver acc cgc, rs_gc_watermark ver acc cgc = g_gc_watermark ver acc).
+Proof. exact (conj gc_uses_the_guards (conj tie_gc_keep tie_gc_watermark)). Qed.
+Print Assumptions C06_gc_guards_are_the_source_guards.
